@@ -182,7 +182,11 @@ def descriptor_of(resources):
         if r.get('pk') is not None:
             extra['primaryKey'] = list(r['pk'])
         items.append((r['name'], r['fields'], extra))
-    return mkdesc(items)
+    d = mkdesc(items)
+    for r, rd in zip(resources, d['resources']):
+        if r.get('path'):
+            rd['path'] = r['path']
+    return d
 
 
 def tables_of(resources):
